@@ -355,6 +355,9 @@ class A:
                         m = [bool(c) for c in m]     # glue under fork-and-replay: one path per selection pattern
                     else:
                         raise Unsupported("boolean indexing with a symbolic mask (data-dependent shape)")
+                if self.ndim > 1 and tuple(idx.shape) == tuple(self.shape):
+                    # a mask of the array's own shape: the selected cells in row-major order, as a vector
+                    return A([c for c, mm in zip(self.cells, m) if mm], self.dtype)
                 if len(m) != self.shape[0]:
                     raise IndexError("boolean index did not match indexed array")
                 if self.ndim == 1:
